@@ -162,4 +162,31 @@ PROPS = {
         trusted_base=["arrow-go IPC writer/reader (one writer per live schema id; dictionary deltas/replacements; zstd) — validated on every run by the independent reader"],
         assumptions=["a stream key belongs to one payload type (consistent_inputs): main keys are schema signatures of different schemas, related keys carry a per-type prefix"],
     ),
+    "C01": dict(
+        runs=[dict(harness="codec", name="rt_traces", args=lambda tier, seed, casedir, coq: ["rt_traces", "--n", str(q(tier, 70, 3000)), "--seed", str(seed)], timeout=3000, coq_timeout=3000)],
+        rule="stream histories of 1-5 trace batches (1-7 spans per scope, 0-2 resources x 0-2 scopes, events, links, every AnyValue type incl. nested lists/maps, empty keys and unset values, boundary numerics, "
+             "near-identical resources/scopes differing only in value type or embedded delimiters, repeated and fresh strings) through the real producer and consumer; per batch (a) the equivalence predicate of Otlp/Equiv.v "
+             "evaluated in Coq on real input vs real output, (b) the real attribute tables and id columns decoded by the Coq model and compared with what the real consumer attached to every row, and re-encoded to the real parent-id column",
+        trusted_base=["modelled, not verified: arrow-go (builders, IPC transport, dictionaries), zstd, the CBOR byte codec (nested values are read back through common.Deserialize)",
+                      "the scalar columns of the main tables are not modelled cell by cell (tie: equivalence predicate on real I/O)",
+                      "injectivity of ResourceID/ScopeID (strconv.Quote, FormatInt, FormatFloat) is validated by the runs, not proved"],
+        assumptions=["domain of the property (timestamps <= 2^63-1; nesting <= 3 in quick runs)"],
+    ),
+    "C02": dict(
+        runs=[dict(harness="codec", name="rt_logs", args=lambda tier, seed, casedir, coq: ["rt_logs", "--n", str(q(tier, 70, 3000)), "--seed", str(seed)], timeout=3000, coq_timeout=3000)],
+        rule="as C01 for logs: bodies of every value type incl. unset, nested, empty strings/bytes; the same scope under different resources; severity/flags/ids at zero and non-zero",
+        trusted_base=["modelled, not verified: arrow-go (builders, IPC transport, dictionaries), zstd, the CBOR byte codec (nested values are read back through common.Deserialize)",
+                      "the scalar columns of the main tables are not modelled cell by cell (tie: equivalence predicate on real I/O)",
+                      "injectivity of ResourceID/ScopeID (strconv.Quote, FormatInt, FormatFloat) is validated by the runs, not proved"],
+        assumptions=["domain of the property"],
+    ),
+    "C03": dict(
+        runs=[dict(harness="codec", name="rt_metrics", args=lambda tier, seed, casedir, coq: ["rt_metrics", "--n", str(q(tier, 90, 3000)), "--seed", str(seed)], timeout=3000, coq_timeout=3000)],
+        rule="as C01 for metrics: all metric types incl. empty, data points with zero counts, all-zero and empty bucket lists / bounds, zero offsets and scales, present-but-zero and absent sum/min/max, int vs double vs unset "
+             "values, quantiles, exemplars with and without attributes; the equivalence predicate (incl. presence of optional values) evaluated in Coq on real input vs output",
+        trusted_base=["modelled, not verified: arrow-go (builders, IPC transport, dictionaries), zstd, the CBOR byte codec (nested values are read back through common.Deserialize)",
+                      "the scalar columns of the main tables are not modelled cell by cell (tie: equivalence predicate on real I/O)",
+                      "injectivity of ResourceID/ScopeID (strconv.Quote, FormatInt, FormatFloat) is validated by the runs, not proved"],
+        assumptions=["domain of the property"],
+    ),
 }
